@@ -1036,7 +1036,33 @@ def pair_rules(ctx):
             names += [c.item for c in crs.call_objs if c.path.endswith('SampleSet>::' + c.item)]
         other = {'feasible_ids': 'feasible_unrelaxed_ids', 'feasible_unrelaxed_ids': 'feasible_ids', 'best_feasible_id': 'best_feasible_unrelaxed_id', 'best_feasible_unrelaxed_id': 'best_feasible_id',
                  'feasible_relaxed': 'feasible_unrelaxed', 'feasible_unrelaxed': 'feasible_relaxed'}[inner]
-        ok = inner in names and other not in names and (outer is None or outer in names)
+        # nothing of the other side may flow into the result, on any path: the relaxed family (remaining constraints) and the
+        # unrelaxed family (all constraints) are not interchangeable (seed C15-18: early `return self.best_feasible_id()` in the unrelaxed twin)
+        RELAXED = {'feasible_relaxed', 'feasible_ids', 'best_feasible_id', 'best_feasible'}
+        UNRELAXED = {'feasible_unrelaxed', 'feasible_unrelaxed_ids', 'best_feasible_unrelaxed_id', 'best_feasible_unrelaxed'}
+        wrong_side = sorted(set(names) & (UNRELAXED if fn in RELAXED else RELAXED) - {fn})
+        ok = inner in names and other not in names and (outer is None or outer in names) and not wrong_side
+        # ... and every success path delivers what `outer(inner())` delivers: each non-error definition of the result derives from both
+        if ok and outer is not None:
+            errs = b.err_exits()
+            for k2, bi2, d2 in b.defs_of(0):
+                if bi2 in errs: continue
+                if k2 == 'call':
+                    c2 = [x for x in b.calls if x.bb == bi2][0]
+                    starts = [a['pl']['l'] for a in c2.args if a['k'] in ('copy', 'move')]
+                    own = [c2.item] if c2.path.endswith('SampleSet>::' + c2.item) else []
+                elif not d2['dst']['p']:
+                    starts = [o['pl']['l'] for o in d2['rv'].get('ops', []) if o['k'] in ('copy', 'move')] + ([d2['rv']['pl']['l']] if 'pl' in d2['rv'] else [])
+                    own = []
+                else: continue
+                sl = ctx.S.backslice(b, starts, depth=0)
+                nd = own + [c.item for c in sl.call_objs if c.path.endswith('SampleSet>::' + c.item)]
+                for cn in sorted(sl.closures):
+                    cb = ctx.F.bodies.get(cn)
+                    if cb is None or not cn.startswith(b.name + '::'): continue
+                    nd += [c.item for c in ctx.S.backslice(cb, [0], depth=0).call_objs if c.path.endswith('SampleSet>::' + c.item)]
+                acc_ok = outer == 'best' and chain[inner][1] in nd
+                if not (outer in nd and (inner in nd or acc_ok)): ok = False; names = names + ['<a success path without %s(%s())>' % (outer, inner)]
         if not ok and outer == 'best' and outer in names and inner not in names and other not in names:
             # the id set is not taken from the public `<inner>()` but built here (a private helper, inlined): it must be built the way
             # `<inner>()` is -- from the same accessor, keeping exactly the ids whose flag is true -- and be what `best` gets
